@@ -72,7 +72,7 @@ func (g *c07Gen) endless(depth int, allowTry bool) string {
 	if depth >= 4 {
 		n = 0
 	}
-	w := []int{10, 1, 1, 1, 1, 1, 2, 1, 1, 1}
+	w := []int{10, 1, 1, 1, 1, 1, 2, 1, 1, 1, 1}
 	if !allowTry || depth >= 4 {
 		w[6] = 0
 	}
@@ -109,6 +109,10 @@ func (g *c07Gen) endless(depth int, allowTry bool) string {
 	case 9:
 		g.kinds = append(g.kinds, "if")
 		return "(if true " + g.endless(depth+1, allowTry) + " 0)"
+	case 10:
+		// evaluation handed to the eval builtin: it must run under the caller's context
+		g.kinds = append(g.kinds, "eval")
+		return "(eval (quote " + g.endless(depth+1, false) + "))"
 	}
 	i := g.tp.Draw(LaneWork, len(c07Leaves))
 	g.kinds = append(g.kinds, c07LeafNames[i])
@@ -252,7 +256,20 @@ func (c07) Run(tp *Tape, opt RunOpt) *RunOut {
 	g := &c07Gen{tp: tp}
 	var src string
 	handlerProbe := false
-	switch tp.Weighted(LaneWork, []int{6, 2}) {
+	finallyProbe := ""
+	switch tp.Weighted(LaneWork, []int{6, 2, 1, 1}) {
+	case 2:
+		// a timeout raised inside a try body: handler and finally both still get to run, once
+		handlerProbe = true
+		finallyProbe = "with-catch"
+		g.hasTry = true
+		g.kinds = append(g.kinds, "finally-probe")
+		src = "(try " + g.endless(1, false) + " (catch e (do (trace! :probe-handler) " + strconv.Itoa(tp.Draw(LaneWork, 50)) + ")) (finally (trace! :probe-finally)))"
+	case 3:
+		finallyProbe = "without-catch"
+		g.hasTry = true
+		g.kinds = append(g.kinds, "finally-probe")
+		src = "(try " + g.endless(1, false) + " (finally (trace! :probe-finally)))"
 	case 0:
 		src = g.endless(0, true)
 	case 1:
@@ -290,7 +307,7 @@ func (c07) Run(tp *Tape, opt RunOpt) *RunOut {
 	// instants are drawn log-uniformly in steps: 2^0..2^14 steps, times a fraction
 	steps := int64(1) << uint(tp.Draw(LaneFault, 15))
 	steps += int64(tp.Draw(LaneFault, int(steps)))
-	if handlerProbe {
+	if handlerProbe || finallyProbe != "" {
 		w.mode = "deadline"
 		// the handler needs about six evaluation steps; it gets a fifth of the deadline and a step may
 		// cost three times the base cost: leave it room, the clause is not about a race against the clock
@@ -352,6 +369,7 @@ func (c07) Run(tp *Tape, opt RunOpt) *RunOut {
 	}
 	var ret *Ev
 	traceH := 0
+	traceF := 0
 	var traceHTime []int64
 	for i := range s.Events {
 		ev := &s.Events[i]
@@ -360,6 +378,9 @@ func (c07) Run(tp *Tape, opt RunOpt) *RunOut {
 		}
 		if ev.Kind == "trace" && ev.A == ":probe-handler" {
 			traceH++
+		}
+		if ev.Kind == "trace" && ev.A == ":probe-finally" {
+			traceF++
 		}
 	}
 	_ = traceHTime
@@ -378,7 +399,20 @@ func (c07) Run(tp *Tape, opt RunOpt) *RunOut {
 		out.Discard = "aborted:" + s.Aborted
 	case ret == nil:
 		out.Discard = "no-return-event"
+	case !w.tStarSet && finallyProbe == "without-catch":
+		// the body's share of the deadline ran out; the finally body runs once in what is left, then the
+		// timeout error goes on to the caller
+		if traceF != 1 {
+			viol("finally-after-timeout", "finally-ran-"+strconv.Itoa(traceF)+"-times", "the body of a try form timed out under a deadline with a fifth of it left: its finally body must run once; it ran "+strconv.Itoa(traceF)+" times; EVAL returned "+ret.B)
+		}
+		out.Stats["finally_probe_ok"]++
 	case !w.tStarSet && handlerProbe:
+		if finallyProbe != "" && traceF != 1 {
+			viol("finally-after-timeout", "finally-ran-"+strconv.Itoa(traceF)+"-times", "the body of a try form timed out under a deadline and the handler caught it: the finally body must run once; it ran "+strconv.Itoa(traceF)+" times; EVAL returned "+ret.B)
+		}
+		if finallyProbe != "" {
+			out.Stats["finally_probe_ok"]++
+		}
 		// the body's share of the deadline ran out, the handler caught the timeout and returned before
 		// the deadline: exactly what clause (iii) asks for
 		if traceH != 1 {
